@@ -70,6 +70,21 @@ fn dump(s: &HllSketch) -> Ob {
     ob
 }
 
+/// The image bytes as an observation.  Every NaN is canonicalised on both sides (the model's floats have
+/// one NaN): a NaN in one of the three f64 fields of an array-mode image (hip_accum @8, kxq0 @16, kxq1 @24;
+/// reachable only through a malformed image that was accepted) is reported as 0x7ff8000000000000.
+fn canonical_image(mut b: Vec<u8>) -> Ob {
+    if b.len() >= 40 && (b[7] & 3) == 2 {
+        for off in [8usize, 16, 24] {
+            let bits = u64::from_le_bytes(b[off..off + 8].try_into().unwrap());
+            if f64::from_bits(bits).is_nan() {
+                b[off..off + 8].copy_from_slice(&0x7ff8_0000_0000_0000u64.to_le_bytes());
+            }
+        }
+    }
+    b.iter().map(|x| *x as i128).collect()
+}
+
 fn est7(s: &HllSketch) -> Ob {
     vec![
         fbits(s.estimate()),
@@ -206,7 +221,7 @@ impl Family for Fam {
                     ob
                 }
             }
-            7 => self.sk[g * 3 + a[1] as usize].serialize().iter().map(|b| *b as i128).collect(),
+            7 => canonical_image(self.sk[g * 3 + a[1] as usize].serialize()),
             8 => {
                 let i = g * 3 + a[1] as usize;
                 match HllSketch::deserialize(&self.sk[i].serialize()) {
